@@ -203,6 +203,17 @@ let do_lexq id =
     Printf.printf "%s chain=%s rest=%d\n" id
       (String.concat "." (Stdlib.List.map (fun b -> hex (string_of_bytes b)) l)) (int_len rest)
 
+(* ---- the statement-level scanner (Qual/StmtLex.v lex_stmt) *)
+let do_stmtlex id =
+  let pg = next_bool () in
+  let text = next_bytes () in
+  let ((chains, lits), bad) = lex_stmt pg text in
+  let hb b = let s = string_of_bytes b in if s = "" then "-" else hex s in
+  let j = function [] -> "_" | l -> String.concat "," l in
+  Printf.printf "%s chains=%s lits=%s bad=%s\n" id
+    (j (Stdlib.List.map (fun c -> String.concat "." (Stdlib.List.map hb c)) chains))
+    (j (Stdlib.List.map hb lits)) (if bad then "1" else "0")
+
 (* ---- Planner.plan, schema scope (Qual/Replay.v) *)
 let do_replay id =
   let q = next_opt () in
@@ -236,6 +247,7 @@ let () =
         | "skel" -> do_skel id
         | "lexq" -> do_lexq id
         | "replay" -> do_replay id
+        | "stmtlex" -> do_stmtlex id
         | m -> failwith ("mode " ^ m)
       end
     done
